@@ -315,6 +315,14 @@ def run_shard(ctx):
         ctx.evaluation(script, nontrivial=nterms > 0, sample={'script': script})
         one_program(ctx, prog, script, rng)
         multi_target(ctx, prog, rng)
+    # big programs (tens of equations over tens of names)
+    big = gen.big_programs(rng, allow=('num', 'neg', 'bin', 'paren', 'call1', 'cmp', 'ifexp'))
+    for i in range(ctx.pick(1, 15)):
+        prog = big.program()
+        script = gen.render_program(prog)
+        ctx.evaluation(script, nontrivial=True, sample={'script': script[:300], 'kind': 'big'})
+        ctx.count('big_programs')
+        one_program(ctx, prog, script, rng)
     V, N, B, E, P = gen.Var, gen.Num, gen.Bin, gen.Eq, gen.Program
     corner = [P([E(V('Y'), B('+', V('Y', off=-1), N('1')))]), P([E(V('Y'), B('+', V('Y'), V('X')))]), P([E(V('Y', off=-1), V('X', off=1))]),
               P([E(V('Y'), B('*', V('a', 'param', 0), V('e', 'error', -2))), E(V('Z'), V('Y', off=-1))]), P([E(V('Y'), N('3'))])]
